@@ -747,6 +747,13 @@ func c18R9(e *Engine) {
 						escapes = "captured by a closure at " + e.ipos(u)
 					case *ssa.MakeInterface:
 						escapes = "boxed at " + e.ipos(u)
+					case *ssa.FieldAddr, *ssa.IndexAddr:
+						// &loopVar.Field kept: same variable, same aliasing
+						for _, r2 := range refsOf(u.(ssa.Value)) {
+							if st, ok := r2.(*ssa.Store); ok && st.Val == u.(ssa.Value) && body[st.Block()] {
+								escapes = "stored (the address of one of its fields) at " + e.ipos(st)
+							}
+						}
 					}
 				}
 				if assigned && escapes != "" {
